@@ -498,9 +498,30 @@ def check_node(ctx, node, prog, phase, ArrayExpr, Alias, seen):
     cls = type(node).__name__
     case = {"program": prog, "phase": phase, "node_class": cls}
     try:
+        # the node's own metadata must exist before its estimate can be judged: a rewritten tree whose
+        # `chunks` raises (layout-drift rewrites, see C02/C03/C08) is ill-formed for reasons that are not C27's
+        unknown = node_unknown(node, ArrayExpr)
+        node.numblocks, node.dtype
+        for dep in node.dependencies():
+            if isinstance(dep, ArrayExpr):
+                dep.numblocks, dep.nbytes
+    except Exception as e:
+        k = f"illformed_nodes_skipped.{phase}.{type(e).__name__}"
+        ctx.notes[k] = ctx.notes.get(k, 0) + 1
+        ctx.extra.setdefault("illformed_node_examples", [])
+        if len(ctx.extra["illformed_node_examples"]) < 3:
+            ctx.extra["illformed_node_examples"].append({"program": prog, "phase": phase, "node_class": cls, "error": repr(e)[:200]})
+        return
+    try:
         tb = node.transfer_bytes
     except Exception as e:
-        ctx.fail(f"node:raises:{cls}", dict(case, error=repr(e)), "transfer_bytes raises on a node of a valid expression tree")
+        sig = f"node:raises:{cls}:{type(e).__name__}"
+        if cls == "Blockwise" and isinstance(e, TypeError) and "unhashable" in str(e) and any(isinstance(i, list) for i in node.args[1::2]):
+            # narrow, stable class: Blockwise built with *list* index operands (tensordot, ...) ->
+            # `(arg._name, ind) in seen` hashes a list
+            sig = "node:raises:Blockwise:unhashable-list-index"
+        ctx.fail(sig, dict(case, error=repr(e)), "transfer_bytes raises on a node of a valid expression tree")
+        ctx.count(("node", phase, cls, "raises"))
         return
     if not (isinstance(tb, tuple) and len(tb) == 2):
         ctx.fail(f"node:not-a-pair:{cls}", dict(case, got=repr(tb)), "transfer_bytes is not a (min, max) pair")
@@ -508,7 +529,6 @@ def check_node(ctx, node, prog, phase, ArrayExpr, Alias, seen):
     lo, hi = tb
     case["chunks"] = repr(node.chunks)
     case["got"] = [repr(lo), repr(hi)]
-    unknown = node_unknown(node, ArrayExpr)
     why = wellformed_pair(lo, hi)
     if why == "nan":
         # a NaN component is allowed only with unknown sizes; the other component must still be sane
@@ -528,9 +548,11 @@ def check_node(ctx, node, prog, phase, ArrayExpr, Alias, seen):
     is_alias = False
     if phase in ("lowered", "lowered-raw", "fused", "materialized") and cls != "FromArray":
         try:
+            # pure alias routing: EVERY task of the layer is an Alias and every alias points outside the layer
+            # (private helper tasks such as rechunk-split getitems or the flattened-mask getitems disqualify it)
             layer = node._layer()
-            own = [v for k, v in layer.items() if isinstance(k, tuple) and k and k[0] == node._name]
-            is_alias = bool(own) and all(isinstance(v, Alias) for v in own)
+            vals = list(layer.values())
+            is_alias = bool(vals) and all(isinstance(v, Alias) and v.target not in layer for v in vals)
         except Exception:
             is_alias = False
     if is_alias and (float(lo) != 0 or float(hi) != 0):
@@ -600,11 +622,24 @@ def check_program(ctx, da, prog, y, seen):
             ctx.fail("alias:ChunksFreeze-nonzero", {"program": prog, "probe": "y.freeze_chunks()", "got": list(map(repr, tb))}, "ChunksFreeze reports a non-zero estimate")
 
 
+# programs of the two classes found on the unchanged tree (dedicated probes: run on every seed so that the
+# signature is reported deterministically -> KNOWN-FINDING line once listed, silent once fixed)
+PROBES = [
+    # Blockwise.transfer_bytes hashes the (list) index operand built by tensordot/dot/vdot: TypeError
+    [["from_array", [[3]], "i8"], ["dotvec", [3]]],
+    # BooleanIndexFlattened: layer is pure Alias routing but the default estimate reports max = input nbytes
+    [["from_array", [[2, 2]], "i8"], ["mask", 1]],
+    [["from_array", [[1, 1], [1, 1]], "i8"], ["mask", 1]],
+]
+
+
 def search_trees(ctx):
     import dask_array as da
 
     seen = set()
-    nprog = ctx.scale(350, 5000)
+    for prog in PROBES:
+        check_program(ctx, da, prog, build(da, prog), seen)
+    nprog = ctx.scale(1500, 20000)
     budget = ctx.scale(35, 420)
     t0 = ctx.elapsed()
     done = 0
